@@ -9,5 +9,5 @@ import OmplModel.Props.C10
 #print axioms OmplModel.NN.nearestK_exact
 #print axioms OmplModel.NN.nearestR_exact
 #print axioms OmplModel.NN.nearest_exact
-#print axioms OmplModel.NN.l1_metric
-#print axioms OmplModel.NN.sampleGnat_wf
+#print axioms OmplModel.NN.add_preserves_inv_partial
+#print axioms OmplModel.NN.remove_preserves_inv_partial
